@@ -54,6 +54,56 @@ def install_models(state):
         e = args[0]
         return Adt('Error', None, None, [e, args[1]])
 
+    def same(i, j):
+        if i == j:
+            return True
+        a, b = min(i, j), max(i, j)
+        return state['same'][(a, b)]
+
+    def yaml_idx(v):
+        v = deref_all(v)
+        return v.data['i'] if isinstance(v, Opaque) and v.kind == 'yaml' else None
+
+    @front(r'^<&*serde_yaml::Value as PartialEq(<.*>)?>::(eq|ne)$')
+    def m_yaml_eq(ex, callee, args):
+        i, j = yaml_idx(args[0]), yaml_idx(args[1])
+        if i is None or j is None:
+            raise Unsupported('equality of non-example YAML values')
+        r = same(i, j)
+        return r if callee.endswith('eq') else b_not(r)
+
+    @front(r'^HashSet::<&serde_yaml::Value>::(new|with_capacity)$|^HashSet::<&serde_yaml::Value, .*>::(new|with_capacity|default)$|^<HashSet<&serde_yaml::Value.*> as Default>::default$')
+    def m_hs_new(ex, callee, args):
+        return Opaque('yamlset', [])
+
+    @front(r'^HashSet::<&serde_yaml::Value.*>::(insert|contains)(::<.*>)?$')
+    def m_hs_insert(ex, callee, args):
+        hs = deref_all(args[0])
+        i = yaml_idx(args[1])
+        if i is None:
+            raise Unsupported('HashSet of non-example YAML values')
+        present = False
+        for j in hs.data:
+            if ex.branch(same(i, j)):
+                present = True
+                break
+        if '::insert' in callee:
+            if not present:
+                hs.data.append(i)
+            return not present
+        return present
+
+    @front(r'^core::slice::<impl \[&*serde_yaml::Value\]>::contains$|^Vec::<&*serde_yaml::Value>::contains$')
+    def m_slice_contains(ex, callee, args):
+        from mirsym.models_std import vec_of
+        v = vec_of(args[0])
+        i = yaml_idx(args[1])
+        for x in v.items:
+            j = yaml_idx(x)
+            if j is not None and ex.branch(same(i, j)):
+                return True
+        return False
+
     @front(r'^error::Error::new$')
     def m_new(ex, callee, args):
         return Adt('ErrorBase', None, None, [args[0]])
@@ -63,7 +113,7 @@ def main():
     ck = Check('C13', 'model_checking')
     quick = ck.tier == 'quick'
     K = 2 if quick else 3
-    ck.bounds = {'true_positives': '0..%d' % K, 'true_negatives': '0..%d' % K, 'example states': 'is_mapping x matches, symbolic'}
+    ck.bounds = {'true_positives': '0..%d' % K, 'true_negatives': '0..%d' % K, 'example states': 'is_mapping x matches x pairwise equality of examples, symbolic'}
     ck.assumptions = ['solver::solve on an example is an arbitrary boolean per example (its meaning is the subject of C02); it is the function matches() calls',
                       'format!/Debug of an example renders something that identifies the example; Error::with keeps the message']
     ck.functions |= {'rule::Rule::validate'}
@@ -78,7 +128,15 @@ def run_unit(ck, unit):
     uni = engine.Universe()
     total = p + n
     state = {'is_mapping': [z3.Bool('is_mapping%d' % i) for i in range(total)],
-             'matches': [z3.Bool('matches%d' % i) for i in range(total)]}
+             'matches': [z3.Bool('matches%d' % i) for i in range(total)],
+             'same': {(i, j): z3.Bool('same%d_%d' % (i, j)) for i in range(total) for j in range(i + 1, total)}}
+    # equal examples are the same document: same shape, same verdict (and equality is transitive)
+    for (i, j), sij in state['same'].items():
+        uni.axioms.append(z3.Implies(sij, z3.And(state['is_mapping'][i] == state['is_mapping'][j], state['matches'][i] == state['matches'][j])))
+        for k in range(j + 1, total):
+            uni.axioms.append(z3.Implies(z3.And(sij, state['same'][(j, k)]), state['same'][(i, k)]))
+            uni.axioms.append(z3.Implies(z3.And(sij, state['same'][(i, k)]), state['same'][(j, k)]))
+            uni.axioms.append(z3.Implies(z3.And(state['same'][(i, k)], state['same'][(j, k)]), sij))
     install_models(state)
     ex = ck.new_engine(prog, uni=uni, summarise=())
 
@@ -107,12 +165,21 @@ def run_unit(ck, unit):
     panics = [r for r in res if r.kind == 'panic']
     br = ck.bridge()
 
+    markers = {}
+
     def replay(model, what):
         # a rule whose examples realise the model: positives/negatives that match / do not match / are not mappings
         def ex_yaml(i):
+            # distinct examples get distinct extra fields unless the model says they are the same document
+            rep = i
+            for j in range(i):
+                if z3.is_true(model.eval(state['same'][(j, i)], model_completion=True)):
+                    rep = j
+                    break
+            markers[i] = str((2000 if not z3.is_true(model.eval(im[i], model_completion=True)) else 1000) + rep)
             if not z3.is_true(model.eval(im[i], model_completion=True)):
-                return '- 1'
-            return '- f: a' if z3.is_true(model.eval(ma[i], model_completion=True)) else '- f: b'
+                return '- %d' % (2000 + rep)
+            return ('- f: a\n  id: %d' % (1000 + rep)) if z3.is_true(model.eval(ma[i], model_completion=True)) else ('- f: b\n  id: %d' % (1000 + rep))
         tp = '\n'.join(ex_yaml(i) for i in range(p)) or '[]'
         tn = '\n'.join(ex_yaml(i) for i in range(p, total)) or '[]'
         yaml = 'detection:\n  A:\n    f: a\n  condition: A\ntrue_positives:%s\ntrue_negatives:%s\n' % (
@@ -169,6 +236,17 @@ def run_unit(ck, unit):
         ck.replays_ok += 1
         if want_ok != got_ok or (r2.get('result') is True) != want_ok:
             return ('violation', path, '%s: validate() says %r, examples say %s' % (label, r, want_ok))
+        if not want_ok:
+            # the error has to name each failing example (their markers are unique numbers)
+            text = r.get('error', '')
+            for i in range(total):
+                failing = z3.is_true(model.eval(fails[i], model_completion=True))
+                mentioned_elsewhere = any(markers.get(j) == markers.get(i) and z3.is_true(model.eval(fails[j], model_completion=True))
+                                          for j in range(total) if j != i)
+                if failing and markers[i] not in text:
+                    return ('violation', path, '%s: the validation error does not name failing example %d: %r' % (label, i, text[:200]))
+                if not failing and markers[i] in text and not mentioned_elsewhere:
+                    return ('violation', path, '%s: the validation error names example %d which does not fail: %r' % (label, i, text[:200]))
         return ('spurious', 'native validate agrees on the outcome; message contents are decided on the MIR only (%s)' % path)
     ck.obligation(label + ':ok <=> all examples right; errors name the failing examples', uni,
                   b_or(*[b for b in bad if b is not False]) if any(b is not False for b in bad) else False, on_sat=on_spec)
